@@ -39,6 +39,23 @@ type RNet struct {
 	Ctl     int    `json:"ctl,omitempty"`
 	Count   int    `json:"count,omitempty"`
 	Repeat  int    `json:"repeat,omitempty"`
+	Status  int    `json:"status,omitempty"` // busy / lost: the indication's device-state octet
+}
+
+// fromWire builds the indication from its octets as a router puts them on the wire and decodes them with the library
+// (busy and lost indications reach the client through the frame decoder; a hand-built struct would bypass it).
+func fromWire(service byte, status, a, b int) knxnet.Service {
+	var w []byte
+	if service == 0x32 { // ROUTING_BUSY: structure length 6, device state, wait time, control
+		w = []byte{0x06, 0x10, 0x05, 0x32, 0x00, 0x0c, 0x06, byte(status), byte(a >> 8), byte(a), byte(b >> 8), byte(b)}
+	} else { // ROUTING_LOST_MESSAGE: structure length 4, device state, count
+		w = []byte{0x06, 0x10, 0x05, 0x31, 0x00, 0x0a, 0x04, byte(status), byte(a >> 8), byte(a)}
+	}
+	var svc knxnet.Service
+	if _, err := knxnet.Unpack(w, &svc); err != nil {
+		return nil
+	}
+	return svc
 }
 
 // RCon is a consumer step: read up to N messages, giving up after WithinUs without one; kind drain reads until closed.
@@ -169,10 +186,11 @@ var errScripted = errors.New("scripted transmission failure")
 
 // RSim is one running router case.
 type RSim struct {
-	Plan *RPlan
-	Sock *common.MemSock
-	R    *knx.Router
-	GR   knx.GroupRouter
+	nextStatus int // device-state octet of the next gated lost indication
+	Plan       *RPlan
+	Sock       *common.MemSock
+	R          *knx.Router
+	GR         knx.GroupRouter
 
 	mu       sync.Mutex
 	start    time.Time
@@ -400,12 +418,22 @@ func (s *RSim) Run() *RResult {
 						s.Sock.Inject(&knxnet.RoutingInd{Payload: inMsg(n.Tag+k, s.Plan.Group)})
 					case "busy":
 						s.add(REv{K: "inj", Note: "busy", N: n.WaitMs, Tag: noTag})
-						s.Sock.Inject(&knxnet.RoutingBusy{WaitTime: time.Duration(n.WaitMs) * time.Millisecond, Control: uint16(n.Ctl)})
+						if svc := fromWire(0x32, n.Status, n.WaitMs, n.Ctl); svc != nil {
+							s.Sock.Inject(svc)
+						} else {
+							s.Sock.Inject(&knxnet.RoutingBusy{WaitTime: time.Duration(n.WaitMs) * time.Millisecond, Control: uint16(n.Ctl)})
+						}
 					case "lost":
 						s.add(REv{K: "inj", Note: "lost", N: n.Count, Tag: noTag})
-						s.Sock.Inject(&knxnet.RoutingLost{Count: uint16(n.Count)})
+						if svc := fromWire(0x31, n.Status, n.Count, 0); svc != nil {
+							s.Sock.Inject(svc)
+						} else {
+							s.Sock.Inject(&knxnet.RoutingLost{Count: uint16(n.Count)})
+						}
 					case "lostq":
+						s.nextStatus = n.Status
 						s.lostAtQuiescence(n.Count, cap, limit)
+						s.nextStatus = 0
 					case "busy-idle":
 						s.busyAtIdle(n, limit)
 					case "junk":
@@ -574,7 +602,11 @@ func (s *RSim) lostAtQuiescence(count, cap int, limit time.Duration) {
 	before := atomic.LoadInt32(&s.outCount)
 	dlvBefore := atomic.LoadInt32(&s.dlvCount)
 	s.add(REv{K: "inj", Note: "lostq", N: count, Tag: noTag, Lane: retained})
-	s.Sock.Inject(&knxnet.RoutingLost{Count: uint16(count)})
+	if svc := fromWire(0x31, s.nextStatus, count, 0); svc != nil {
+		s.Sock.Inject(svc)
+	} else {
+		s.Sock.Inject(&knxnet.RoutingLost{Count: uint16(count)})
+	}
 	// a sentinel behind it: the serve loop takes the next frame only after it has dealt with the lost
 	// indication (obtained the lock and removed the messages to resend) - only then may senders go on
 	s.Sock.Inject(&knxnet.SearchReq{})
@@ -610,7 +642,11 @@ func (s *RSim) busyAtIdle(n RNet, limit time.Duration) {
 		return
 	}
 	s.add(REv{K: "inj", Note: "busy-idle", N: n.WaitMs, Lane: n.Ctl, Tag: noTag})
-	s.Sock.Inject(&knxnet.RoutingBusy{WaitTime: time.Duration(n.WaitMs) * time.Millisecond, Control: uint16(n.Ctl)})
+	if svc := fromWire(0x32, n.Status, n.WaitMs, n.Ctl); svc != nil {
+		s.Sock.Inject(svc)
+	} else {
+		s.Sock.Inject(&knxnet.RoutingBusy{WaitTime: time.Duration(n.WaitMs) * time.Millisecond, Control: uint16(n.Ctl)})
+	}
 	deadline := time.Now().Add(40 * time.Millisecond)
 	for time.Now().Before(deadline) {
 		if s.R.VerifSendLocked() {
